@@ -139,7 +139,8 @@ def run(ctx):
         ("Columns::splice / remove_ops", COLS + "::splice", COLS + "::remove_ops", 2, "equal"),
         ("OpSet::splice / undo_op", OS + "::splice", OS + "::undo_op", 1, "subset"),
         ("ChangeGraph insert_actor / remove_actor", CG + "::insert_actor", CG + "::remove_actor", 1, "equal"),
-        ("OpSet insert_actor / remove_actor", OS + "::insert_actor", OS + "::remove_actor", 1, "equal"),
+        # depth 3: the mark index (`cols.index.mark`) holds actor indexes of its own and is re-numbered by a call of its own
+        ("OpSet insert_actor / remove_actor", OS + "::insert_actor", OS + "::remove_actor", 3, "equal"),
         ("Automerge insert_actor / remove_actor", AM + "::insert_actor", AM + "::remove_actor", 1, "equal"),
     ]
     for name, do, undo, depth, mode in pairs:
@@ -150,6 +151,15 @@ def run(ctx):
         ok = (fd == fu) if mode == "equal" else (fd <= fu)
         ctx.ob("R11-fields", name, ok and bool(fd), f.fns[pu]["sp"],
                "both touch %s" % sorted(fd) if ok else "forward half mutates %s, backward half %s: not restored %s, only in undo %s" % (sorted(fd), sorted(fu), sorted(fd - fu), sorted(fu - fd)))
+    # opening a transaction mutates nothing that rollback has no inverse for: the queue of held-back changes in particular
+    ctx.rule("R11-open", "Automerge::transaction_args (and isolate_actor) mutate only what rollback undoes (the actor table, through get_or_create_actor_index / remove_actor): no call that removes or adds queued changes")
+    for fn in (AM + "::transaction_args", AM + "::isolate_actor"):
+        tb = ctx.body(fn)
+        ctx.analysed_fns.add(find(f, fn))
+        qm = [(bi, t) for bi, t in tb.calls() if (callee(t) or "").startswith("automerge::change_queue::ChangeQueue::") and t.get("argtys") and t["argtys"][0].startswith("&mut ")]
+        ctx.ob("R11-open", "%s|queue untouched" % fn.split("::")[-1], not qm, (qm[0][1]["sp"] if qm else tb.rec["sp"]),
+               "no mutating ChangeQueue call" if not qm else
+               "opening a transaction already edits the queue of held-back changes (%s); rollback has no record of it: a rolled-back transaction loses queued changes, get_missing_deps() and save() differ from before" % sorted({callee(t).split("::")[-1] for _, t in qm}))
     check_unconditional_reindex(ctx, f, find(f, CG + "::insert_actor"))
     check_unconditional_reindex(ctx, f, find(f, CG + "::remove_actor"))
     # ---------------- rollback
